@@ -1067,6 +1067,28 @@ func (env *SpecEnv) evalCall(x *SExpr) *SV {
 				op = ">="
 			}
 			return mathSV(ite("("+op+" "+a.V.L[0]+" "+b.V.L[0]+")", a.V.L[0], b.V.L[0]))
+		case "$call":
+			// $call("name#n"): the value returned by the n-th call of name made directly by this function
+			if len(args) != 1 || args[0].Op != "str" {
+				env.errorf("$call needs a string literal \"callee#n\"")
+				return mathSV("0")
+			}
+			if env.fx == nil {
+				// the clause is being used at a call site of the contract's owner: the value is internal to the callee,
+				// the caller learns only that some such value exists
+				return mathSV(e.c.fresh("callres", SInt))
+			}
+			top := env.fx.topFx()
+			rt := top.callResT[args[0].Name]
+			if rt == nil {
+				env.errorf("$call(%q): this function has no such call site", args[0].Name)
+				return mathSV("0")
+			}
+			var ls []string
+			for i := range e.fl.leaves(rt) {
+				ls = append(ls, e.heapGet(env.state(), fmt.Sprintf("G|$call:%s|%d", args[0].Name, i)))
+			}
+			return &SV{V: &Val{L: ls}, T: rt}
 		case "closed":
 			a := env.eval(args[0])
 			return boolSV(sel(e.heapGet(env.state(), e.keyChanClosed()), a.V.L[0]))
@@ -1125,7 +1147,11 @@ func (env *SpecEnv) evalCall(x *SExpr) *SV {
 				if len(only) > 0 && !only[li.Name] {
 					continue
 				}
-				cs = append(cs, e.evalClauseOn(li.Clause, env.state(), env.old, a.V.Loc.Ref, env.fx))
+				g := e.evalClauseOn(li.Clause, env.state(), env.old, a.V.Loc.Ref, env.fx)
+				if fl := e.envGuardFor(li.Clause.Tags); fl != "" {
+					g = "(=> " + fl + " " + g + ")"
+				}
+				cs = append(cs, g)
 			}
 			return boolSV(and(cs...))
 		case "typeis":
